@@ -587,6 +587,11 @@ def GArg.denotes (d : Dialect) (env : Env) : GArg → Option Int → Prop
   | .param _ pv, v => v = pv ∧ pv ≠ none
   | .expr x, v => ∃ i, eval d env x = .ok (.int i) ∧ v = some i
 
+/-- the same query code run with other parameter values: `vars` gives the new value of every key -/
+def GArg.rebind (vars : String → Option Int) : GArg → GArg
+  | .param k _ => .param k (vars k)
+  | g => g
+
 /-- the "whole string" shortcut of `__getitem__`: `start_value == 0 and stop_value == -1` -/
 def shortcut (start stop : GArg) : Prop := start.known 0 = some 0 ∧ stop.known (-1) = some (-1)
 
